@@ -136,7 +136,7 @@ fn case_cov(ctx: &Ctx, shard: usize, index: u64, rep: &mut Report, cov: &mut Cov
         let ic = InterCfg { ptype: 0, big_vectors_pct: 30, residual_pct: 30, truncate: None, allow_q: true };
         let pic = gen_inter(&mut rng, &cfg, &ic);
         let needs_pred = pic.mbs.len() < pic.mbw() * pic.mbh() || pic.mbs.iter().any(|m| match m {
-            SymMb::NotCoded => true,
+            SymMb::NotCoded | SymMb::Raw(_) => true,
             SymMb::Coded { kind, .. } => !kind.is_intra(),
         });
         let bytes = pic.encode();
@@ -197,6 +197,7 @@ fn case_cov(ctx: &Ctx, shard: usize, index: u64, rep: &mut Report, cov: &mut Cov
                     let kind: &'static str = match pic.mbs.get(i) {
                         None => "implicit-after-end",
                         Some(SymMb::NotCoded) => "not-coded",
+                        Some(SymMb::Raw(_)) => "raw",
                         Some(SymMb::Coded { kind, .. }) => kind.name(),
                     };
                     let mv = rec.mvs[i][0];
@@ -217,6 +218,7 @@ fn case_cov(ctx: &Ctx, shard: usize, index: u64, rep: &mut Report, cov: &mut Cov
                                     .enumerate()
                                     .map(|(i, m)| match m {
                                         SymMb::NotCoded => J::Str("not-coded".into()),
+                                        SymMb::Raw(_) => J::Str("raw".into()),
                                         SymMb::Coded { kind, mvd, .. } => J::Str(format!("{} mvd={:?} -> mv={:?}", kind.name(), &mvd[..if kind.four() { 4 } else { 1 }], &rec.mvs[i][..if kind.four() { 4 } else { 1 }])),
                                     })
                                     .collect(),
